@@ -21,8 +21,8 @@ import TinsModel.Ack.Model
     off, `Flow::enable_ack_tracking` per flow, `AckTracker::use_sack` (for streams attached mid-way, whose trackers
     are default-constructed with SACK off), `Stream::ignore_client_data` / `ignore_server_data`;
   * `DEFAULT_MAX_SACKED_INTERVALS` is a parameter (`Cfg.maxSacked`; the check reads the literal from the source);
-  * a SACK option whose data is not a whole number of 32-bit edges is skipped by the flow (after
-    `fix: a malformed SACK option made Flow::process_packet throw ...`); recovery mode is not enabled.
+  * a SACK option whose data is not a whole number of 32-bit edges is skipped by the flow (KF-C07-4, after `fix: a SACK
+    option that cannot be decoded made Flow::process_packet throw malformed_option ...`); recovery mode is not enabled.
 -/
 namespace Tins.SF
 open Tins Tins.DT
